@@ -168,3 +168,48 @@ Theorem bundle_v1_others_unaffected :
     (forall dd, has_data b slot dd = false) ->
     v1_read s' slot = v1_read s0 slot.
 Proof. exact v1_others_unaffected. Qed.
+
+(* ---- histories: the invariant required of the prior state holds for freshly initialised bundles and is
+   re-established by every raw sequence that obeys the discipline, so the crash theorems apply to every store of
+   every history of stores (arbitrary prior cache contents reachable by the writers). *)
+Theorem bundle_v2_initial_state_ok : v2_wf v2_init.
+Proof. exact v2_init_wf. Qed.
+
+Theorem bundle_v1_initial_state_ok : forall c r, v1_wf (mkV1 (v1_dat_init c r) v1_idx_init).
+Proof. exact v1_init_wf. Qed.
+
+Theorem bundle_v2_invariant_preserved :
+  forall b f0 ops,
+    v2_wf f0 -> v2_raw_ok b (flen f0) f0 ops = true -> v2_wf (bw_apply_all f0 ops).
+Proof. exact v2_wf_preserved. Qed.
+
+Theorem bundle_v1_invariant_preserved :
+  forall b s0 ops,
+    v1_wf s0 -> v1_raw_ok b (flen (v1dat s0)) s0 ops = true -> v1_wf (v1_apply_all s0 ops).
+Proof. exact v1_wf_preserved. Qed.
+
+(* ---- the model of BundleV2.store_tiles itself (program order: size, data, index entry, metadata) obeys the
+   discipline for every batch of non-empty tiles below 2^24 bytes while the file stays below 2^40 bytes (the
+   ranges the 8-byte entry can express) ... *)
+Theorem bundle_v2_writer_obeys_discipline :
+  forall b f0,
+    v2_wf f0 -> flen f0 + total_len b <= P40 ->
+    (forall slot d, In (slot, d) b -> 0 <= slot < SLOTS /\ d <> [] /\ zlen d < 16777216) ->
+    v2_raw_ok b (flen f0) f0 (v2_store_ops f0 b) = true.
+Proof. exact v2_store_ops_valid. Qed.
+
+(* ... hence: every crash state of the modelled v2 store, for every prior state with the invariant and every
+   batch, shows each slot old or complete new, and the completed store re-establishes the invariant. *)
+Theorem crash_safe_bundle_v2_store :
+  forall b f0 f' slot,
+    v2_wf f0 -> flen f0 + total_len b <= P40 -> v2_batch_ok b ->
+    In f' (v2_crash_states f0 (v2_store_ops f0 b)) -> 0 <= slot < SLOTS ->
+    v2_read f' slot = v2_read f0 slot \/
+    exists dd, has_data b slot dd = true /\ dd <> [] /\ v2_read f' slot = RData dd.
+Proof. exact v2_store_crash_safe. Qed.
+
+Theorem bundle_v2_store_reestablishes_invariant :
+  forall b f0,
+    v2_wf f0 -> flen f0 + total_len b <= P40 -> v2_batch_ok b ->
+    v2_wf (bw_apply_all f0 (v2_store_ops f0 b)).
+Proof. exact v2_store_wf. Qed.
